@@ -22,8 +22,15 @@ def fr_list(xs):
     return [to_frac(x) for x in xs]
 
 
+class NonFinite(Exception):
+    """an output the harness was about to convert to exact rationals contains nan/inf"""
+
+
 def tensor_to_fr(t):
-    return [Fr(float(x)) for x in t.detach().double().reshape(-1).tolist()]
+    xs = t.detach().double().reshape(-1).tolist()
+    if any(x != x or x in (float("inf"), float("-inf")) for x in xs):
+        raise NonFinite(f"non-finite values {xs[:8]}")
+    return [Fr(float(x)) for x in xs]
 
 
 def maxabs(xs):
